@@ -158,12 +158,12 @@ func routeGen(kind string, sequential bool) func(r *rand.Rand, tier string) []sp
 			// the same rounds through a real plugin subprocess: Cmd / custom runner /
 			// custom runner whose plugin sees the socket directory under another path
 			// (address translation in both directions), with and without AutoMTLS
-			np := 6
+			np := 8
 			if tier == "thorough" {
-				np = 60
+				np = 64
 			}
 			for i := 0; i < np; i++ {
-				p := spec.RouteCase{Kind: kind, Seed: r.Int63n(1 << 30), Proc: []string{"runner-translate", "runner", "cmd"}[i%3], TLS: []string{"none", "auto"}[(i/3)%2]}
+				p := spec.RouteCase{Kind: kind, Seed: r.Int63n(1 << 30), Proc: []string{"runner-translate", "runner-forward", "runner", "cmd"}[i%4], TLS: []string{"none", "auto"}[(i/4)%2]}
 				k := 2 + r.Intn(14)
 				nextID := map[string]uint32{"host": 1, "plugin": 1}
 				for j := 0; j < k; j++ {
@@ -353,7 +353,7 @@ func routeJudge(prop string) func(c spec.Case, evs []spec.Event, d *Death) CaseR
 				viol("earlier-connection-broken", fmt.Sprintf("after establishment %d: earlier brokered connections: %v", h.Idx, h.Reping))
 			}
 		}
-		if p.Kind != "mux" && (p.Proc == "runner" || p.Proc == "runner-translate") {
+		if p.Kind != "mux" && (p.Proc == "runner" || p.Proc == "runner-translate" || p.Proc == "runner-forward") {
 			// every address crossing the host/plugin boundary must go through the runner's translator
 			hostAccepts, hostDials := 0, 0
 			for _, it := range p.Items {
